@@ -273,8 +273,10 @@ func (r *Reader) traverseNode(n *html.Node, ctx *parseContext) {
 				text := getDirectTextContent(n)
 				if text != "" {
 					ctx.listItems = append(ctx.listItems, listItem{
-						Text:  text,
-						Level: ctx.listLevel,
+						Text:    text,
+						Level:   ctx.listLevel,
+						Ordered: ctx.listOrdered,
+						HasKind: true,
 					})
 				}
 				// Check for nested lists
@@ -471,8 +473,10 @@ func (r *Reader) traverseNodeFiltered(n *html.Node, ctx *parseContext, elements 
 				text := getDirectTextContent(n)
 				if text != "" {
 					ctx.listItems = append(ctx.listItems, listItem{
-						Text:  text,
-						Level: ctx.listLevel,
+						Text:    text,
+						Level:   ctx.listLevel,
+						Ordered: ctx.listOrdered,
+						HasKind: true,
 					})
 				}
 				// Check for nested lists
@@ -894,7 +898,11 @@ func (r *Reader) MarkdownWithOptions(opts ExtractOptions) (string, error) {
 				for j := 0; j < item.Level; j++ {
 					result.WriteString("  ")
 				}
-				if elem.Ordered {
+				ordered := elem.Ordered
+				if item.HasKind {
+					ordered = item.Ordered
+				}
+				if ordered {
 					result.WriteString("1. ")
 				} else {
 					result.WriteString("- ")
